@@ -370,12 +370,6 @@ func (r *ref) call(at any, name string, args []any) any {
 			if (num0 && !n) || (str0 && !s) {
 				unspec("comparison of mixed kinds")
 			}
-			if i, ok := isInt(v); ok && !exactF(i) {
-				unspec("comparison beyond 2^53")
-			}
-		}
-		if i, ok := isInt(vals[0]); ok && !exactF(i) {
-			unspec("comparison beyond 2^53")
 		}
 		res := true
 		for i := 0; i+1 < len(vals); i++ {
@@ -386,12 +380,7 @@ func (r *ref) call(at any, name string, args []any) any {
 				if math.IsNaN(a) || math.IsNaN(b) {
 					unspec("NaN")
 				}
-				switch {
-				case a < b:
-					c = -1
-				case a > b:
-					c = 1
-				}
+				c = cmpExact(vals[i], vals[i+1])
 			} else {
 				c = strings.Compare(vals[i].(string), vals[i+1].(string))
 			}
@@ -1041,20 +1030,44 @@ func (r *ref) call(at any, name string, args []any) any {
 }
 
 // cmpHolds: does the comparison hold between two neighbours (false also when they cannot be compared).
+// cmpExact: two integers are compared as integers ("greater than" has one meaning for numbers,
+// whatever their size); an integer beyond 2^53 against a float is left open (the description does
+// not say in which kind the two meet).
+func cmpExact(a, b any) int {
+	ia, aok := isInt(a)
+	ib, bok := isInt(b)
+	if aok && bok {
+		switch {
+		case ia < ib:
+			return -1
+		case ia > ib:
+			return 1
+		}
+		return 0
+	}
+	if (aok && !exactF(ia)) || (bok && !exactF(ib)) {
+		unspec("comparison of an integer beyond 2^53 with a float")
+	}
+	fa, _ := isNum(a)
+	fb, _ := isNum(b)
+	switch {
+	case fa < fb:
+		return -1
+	case fa > fb:
+		return 1
+	}
+	return 0
+}
+
 func cmpHolds(name string, a, b any) bool {
 	var c int
-	fa, na := isNum(a)
-	fb, nb := isNum(b)
+	_, na := isNum(a)
+	_, nb := isNum(b)
 	sa, oka := a.(string)
 	sb, okb := b.(string)
 	switch {
 	case na && nb:
-		switch {
-		case fa < fb:
-			c = -1
-		case fa > fb:
-			c = 1
-		}
+		c = cmpExact(a, b)
 	case oka && okb:
 		c = strings.Compare(sa, sb)
 	default:
